@@ -43,17 +43,42 @@ pub const fn htx_bitmap_pos(n: u64, idx: u64) -> u64 {
     HTX_HEADER_SZ + 8 * n + idx / 8
 }
 
-/// slot size for an encoded record that needs `need` bytes (need >= 1)
+/// slot size for an encoded record that needs `need` bytes (need >= 1); loop-free on purpose
 pub fn slot_for(need: u32) -> u32 {
-    let mut i = 0;
-    while i < 15 {
-        if need <= CLASSES[i] {
-            return CLASSES[i];
-        }
-        i += 1;
+    if need <= 16 {
+        16
+    } else if need <= 24 {
+        24
+    } else if need <= 32 {
+        32
+    } else if need <= 48 {
+        48
+    } else if need <= 64 {
+        64
+    } else if need <= 80 {
+        80
+    } else if need <= 96 {
+        96
+    } else if need <= 112 {
+        112
+    } else if need <= 128 {
+        128
+    } else if need <= 256 {
+        256
+    } else if need <= 384 {
+        384
+    } else if need <= 512 {
+        512
+    } else if need <= 640 {
+        640
+    } else if need <= 768 {
+        768
+    } else if need <= 896 {
+        896
+    } else {
+        // large: next multiple of 128 strictly above `need`
+        (need / 128 + 1) * 128
     }
-    // large: next multiple of 128 strictly above `need`
-    (need / 128 + 1) * 128
 }
 /// index of the free list a slot of `size` bytes belongs to
 pub fn list_of(size: u32) -> usize {
@@ -182,8 +207,56 @@ pub fn hash_key(key: &[u8]) -> u64 {
     }
     h
 }
+/// the same hash for keys of at most 8 bytes, loop-free (used where keys are short solver variables)
+pub fn hash_key_short(key: &[u8; 8], len: usize) -> u64 {
+    let h = mix((len as u64).swap_bytes());
+    if len == 0 {
+        return h;
+    }
+    let mut a: u64 = 0;
+    if len > 0 {
+        a = key[0] as u64;
+    }
+    if len > 1 {
+        a = (a << 8) | key[1] as u64;
+    }
+    if len > 2 {
+        a = (a << 8) | key[2] as u64;
+    }
+    if len > 3 {
+        a = (a << 8) | key[3] as u64;
+    }
+    if len > 4 {
+        a = (a << 8) | key[4] as u64;
+    }
+    if len > 5 {
+        a = (a << 8) | key[5] as u64;
+    }
+    if len > 6 {
+        a = (a << 8) | key[6] as u64;
+    }
+    if len > 7 {
+        a = (a << 8) | key[7] as u64;
+    }
+    mix(h.wrapping_add(a))
+}
 pub fn bucket_of(key: &[u8], n: u64) -> u64 {
     hash_key(key) % n
+}
+
+/// slot size the released code reserves for a NEW or REWRITTEN key record.  Note the released
+/// quirk: the two offset fields are *estimated* at vu64_len(offset) although they are written as
+/// vu64(offset / 8); the estimate is an upper bound, so records always fit (see K-kslot).
+pub fn key_slot_chosen(klen: u64, val_off: u64, next_off: u64) -> u32 {
+    let piece_len = vu64_len(klen) + klen + vu64_len(val_off) + vu64_len(next_off);
+    let enc = vu64_len((piece_len + 7) / 8);
+    slot_for((enc + piece_len) as u32)
+}
+/// slot size the released code reserves for a NEW or REWRITTEN value record
+pub fn val_slot_chosen(vlen: u64) -> u32 {
+    let piece_len = vu64_len(vlen) + vlen;
+    let enc = vu64_len((piece_len + 7) / 8);
+    slot_for((enc + piece_len) as u32)
 }
 
 /// bytes a used key record occupies before padding
